@@ -36,6 +36,16 @@ Tamper == /\ pc = "blob" /\ Len(ops) < MaxTamper /\ fault = "none"
                 /\ blob' = Tampered(blob, op) /\ ops' = Append(ops, op)
           /\ UNCHANGED <<pc, W, P, auth, fault, result>>
 
+\* coordinated edits: a length word of the header raised by n and n foreign bytes spliced in right behind that field, so
+\* that everything after it still lines up
+Grow == /\ pc = "blob" /\ ops = <<>> /\ fault = "none"
+        /\ \E n \in {1, 4}, fld \in {"nonce", "dek"} :
+             LET o1 == IF fld = "nonce" THEN [k |-> "set", pos |-> 3, val |-> NonceLen + n] ELSE [k |-> "set", pos |-> 1, val |-> W + n]
+                 o2 == [k |-> "splice", pos |-> (IF fld = "nonce" THEN 4 + W + NonceLen ELSE 4 + W), n |-> n]
+             IN /\ W + n < 256
+                /\ blob' = Tampered(Tampered(blob, o1), o2) /\ ops' = <<o1, o2>>
+        /\ UNCHANGED <<pc, W, P, auth, fault, result>>
+
 Fault == /\ pc = "blob" /\ ops = <<>> /\ fault = "none"
          /\ fault' \in {"enc_err", "err", "wrongkey", "wronglen", "longkey", "shortkey"}
          /\ UNCHANGED <<pc, W, P, auth, blob, ops, result>>
@@ -44,7 +54,7 @@ DoDecrypt == /\ pc = "blob"
              /\ result' = IF fault = "enc_err" THEN Err ELSE Decrypt(blob, W, P, auth, fault)
              /\ pc' = "done" /\ UNCHANGED <<W, P, auth, blob, ops, fault>>
 
-Next == Encrypt \/ Tamper \/ Fault \/ DoDecrypt
+Next == Encrypt \/ Tamper \/ Grow \/ Fault \/ DoDecrypt
 Spec == Init /\ [][Next]_vars
 
 \* ---- properties
